@@ -61,6 +61,11 @@ CHECKS = {
    "close() must stay pending while a started handler whose client stays (or any detached handler) runs, responses of started handlers are delivered completely, close() returns once all clients left and gates opened, the listening socket is gone (checked in /proc/net/tcp + /proc/self/fd), every waiter (early, and one that starts waiting after shutdown finished) gets the same result.",
    "as C16; the 'close() has not returned yet' window is 30 ms (quick) / 200 ms (thorough) and can only miss, never false-alarm",
    "DESIGN.md section 4/C17"),
+ "C15": ("E2-live", "exploration",
+   "bounded-exhaustive enumeration of scan histories: every (collection size, client limit, sort order) in the stated grid is one deterministic history of page requests driven over TCP against a real server, with failing-token requests interleaved",
+   "Complete (size x limit) product up to size 40 (thorough 120), sparse limits up to 260, clamp sizes around the 10000 maximum, 3 sort orders, two runtimes; each scan compared item-by-item with the collection.",
+   "the handler is harness code written as the documentation shows; kernel loopback; serde_json",
+   "DESIGN.md section 4/C15"),
 }
 
 NOT_YET = {
@@ -101,7 +106,7 @@ def main():
       "engines": [
         {"name": "E1", "path": "harness/src/e1.rs + harness/src/bin/e1.rs", "serves_properties": ["C01","C02","C04","C06"], "kind_free_text": "stateless explicit exploration of registration histories on the real ApiDescription/HttpRouter"},
         {"name": "E3", "path": "harness/src/live.rs + harness/src/e3.rs + harness/src/bin/e3.rs", "serves_properties": ["C16","C17"], "kind_free_text": "live event explorer: real HttpServer on loopback, raw TCP client, gated handlers, in-memory slog drain; stateless replay of every history"},
-        {"name": "E2", "path": "harness/src/bin/c03.rs c05.rs ...", "serves_properties": ["C03","C05","C12","C13","C14"], "kind_free_text": "bounded-exhaustive input enumeration against reference functions, on the real public functions"},
+        {"name": "E2", "path": "harness/src/bin/c03.rs c05.rs ...", "serves_properties": ["C03","C05","C12","C13","C14","C15"], "kind_free_text": "bounded-exhaustive input enumeration against reference functions, on the real public functions"},
       ],
       "checks": checks,
       "not_applicable": na,
